@@ -1,0 +1,76 @@
+//go:build verif
+
+// Contracts for the engine (request handling around the VM), checked by
+// /verif/cmd/vcgo. Comments only; compiled only under the `verif` tag.
+
+package engine
+
+// An initialised engine: state, cache and VM are wired together, the VM and
+// session invariants hold, and the configured output size is the sizer's.
+//@ pred wired(en) = en != nil && en.st != nil && en.vm != nil && en.rs != nil && en.vm.st == en.st && en.vm.ca == en.ca && en.vm.rs == en.rs
+//@ pred sized(en) = en.cfg.OutputSize > 0 ==> en.vm.sizer != nil && en.vm.sizer.outputSize == en.cfg.OutputSize
+//@ pred engOk(en) = wired(en) && vm.vmOk(en.vm) && vm.noWrap(en.vm) && render.pageOk(en.vm.pg) && vm.session(en.vm) && sized(en) && vm.codeSep(en.vm, en.st.Code)
+//@ pred fl(en, i) = state.flag(en.st, i)
+//@ pred sameEngine(en) = en.st == old(en.st) && en.ca == old(en.ca) && en.vm == old(en.vm) && en.rs == old(en.rs) && en.pe == old(en.pe)
+//@   && en.cfg.OutputSize == old(en.cfg.OutputSize) && en.cfg.Root == old(en.cfg.Root) && en.initd == old(en.initd) && en.first == old(en.first)
+
+// End of bytecode: stop, and remember the exit value when there is output to deliver (C20).
+//@ func (*DefaultEngine).setCode
+//@   serves C20
+//@   requires en != nil && en.st != nil && state.flagsOk(en.st) && vm.memOk(en.ca)
+//@   modifies en.st.Code, en.exiting, en.exit, vm.cac(en.ca).LastValue
+//@   ensures @code en.st.Code == code && result1 == nil
+//@   ensures[C20] @more len(code) > 0 ==> result0 && unchanged(en.exiting, en.exit)
+//@   ensures[C20] @end len(code) == 0 ==> !result0 && (fl(en, state.FLAG_DIRTY) ==> en.exiting && en.exit == old(vm.cac(en.ca).LastValue))
+//@     && (!fl(en, state.FLAG_DIRTY) ==> unchanged(en.exiting, en.exit))
+
+// reset: unwind the whole stack (also the entry node), release the cache
+// scopes, clear TERMINATE and DIRTY; the client flags are kept (C20).
+//@ func (*DefaultEngine).reset
+//@   serves C20
+//@   requires wired(en) && state.flagsOk(en.st) && vm.memOk(en.ca) && vm.memWf(en.ca)
+//@   modifies en.st.ExecPath, en.st.SizeIdx, en.st.Moves, en.st.lastMove, en.st.Flags[0], en.st.input
+//@   modifies vm.cac(en.ca).Cache, vm.cac(en.ca).Cache[*], vm.cac(en.ca).CacheUseSize, vm.cac(en.ca).Sizes[*]
+//@   ensures @mem vm.memOk(en.ca) && vm.memWf(en.ca) && state.flagsOk(en.st) && cache.scopesKnown(vm.cac(en.ca))
+//@   ensures @input en.st.input == old(en.st.input) || (fresh(en.st.input) && en.st.input != nil)
+//@   ensures[C20] @unwound old(vm.depth(en.st)) >= 1 ==> result1 == nil && !result0 && vm.depth(en.st) == 0
+//@     && vm.levels(en.ca) == max(1, old(vm.levels(en.ca)) - old(vm.depth(en.st)))
+//@   ensures[C20] @flags old(vm.depth(en.st)) >= 1 ==> !fl(en, state.FLAG_TERMINATE) && !fl(en, state.FLAG_DIRTY) && state.clientFlagsSame(en.st)
+//@     && forall(n, 0, 8, n != state.FLAG_TERMINATE && n != state.FLAG_DIRTY ==> bit(en.st.Flags[0], n) == old(bit(en.st.Flags[0], n)))
+//@   ensures[C20] @pristine old(vm.depth(en.st)) == 0 ==> result1 != nil && state.samePosition(en.st) && state.sameFlags(en.st) && vm.levels(en.ca) == old(vm.levels(en.ca))
+//@   loop 1 modifies en.st.ExecPath, en.st.SizeIdx, en.st.Moves, en.st.lastMove, vm.cac(en.ca).Cache, vm.cac(en.ca).Cache[*], vm.cac(en.ca).CacheUseSize, vm.cac(en.ca).Sizes[*]
+//@   loop 1 invariant @mem vm.memOk(en.ca) && vm.memWf(en.ca) && (sameBacking(vm.cac(en.ca).Cache, loopold(vm.cac(en.ca).Cache)) || loopfresh(vm.cac(en.ca).Cache))
+//@   loop 1 invariant @known cache.scopesKnown(vm.cac(en.ca))
+//@   loop 1 invariant @depth vm.depth(en.st) <= old(vm.depth(en.st)) && (isTop ==> vm.depth(en.st) == 0 && old(vm.depth(en.st)) >= 1) && (!isTop && old(vm.depth(en.st)) >= 1 ==> vm.depth(en.st) >= 1)
+//@   loop 1 invariant @levels vm.levels(en.ca) == max(1, old(vm.levels(en.ca)) - (old(vm.depth(en.st)) - vm.depth(en.st)))
+//@   loop 1 invariant @same vm.depth(en.st) == old(vm.depth(en.st)) ==> state.samePosition(en.st)
+
+// Flush: renders the pending page and hands it to the writer; refuses when
+// nothing was executed (C17); ends the session after the final output (C20).
+//@ func (*DefaultEngine).Flush
+//@   serves C01, C17, C20
+//@   requires engOk(en)
+//@   requires[C08] vm.lockstep(en.vm)
+//@   modifies everything
+//@   ensures @eng engOk(en)
+//@   ensures @same sameEngine(en)
+//@   ensures[C08] @lockstep !old(en.exiting) ==> vm.lockstep(en.vm)
+//@   ensures[C17] @noexec !old(en.execd) ==> result0 == 0 && result1 == ErrFlushNoExec && vm.untouched(en.vm) && count(written) == old(count(written))
+//@     && unchanged(en.exit, en.exiting, en.execd) && en.st.Code == old(en.st.Code)
+//@   ensures[C01] @fits en.cfg.OutputSize > 0 ==> count(written) - old(count(written)) <= int(en.cfg.OutputSize)
+//@   ensures[C20] @ended old(en.execd && en.exiting) && old(vm.depth(en.st)) >= 1 && result1 == nil ==> vm.depth(en.st) == 0 && !en.exiting
+//@     && !fl(en, state.FLAG_TERMINATE) && !fl(en, state.FLAG_DIRTY) && state.clientFlagsSame(en.st)
+
+// exec: run the pending code; stop when TERMINATE is set afterwards (C06) or the code ran out (C20).
+//@ func (*DefaultEngine).exec
+//@   serves C06, C20
+//@   requires engOk(en)
+//@   requires[C08] vm.lockstep(en.vm)
+//@   modifies everything except ghost:written, ghost:flagcount, f:engine.Config., f:render.Sizer.outputSize
+//@   ensures @eng engOk(en)
+//@   ensures @same sameEngine(en)
+//@   ensures[C08] @lockstep vm.lockstep(en.vm)
+//@   ensures[C06,C20] @stopped fl(en, state.FLAG_TERMINATE) ==> !result0
+//@   ensures[C06,C20] @blocked old(fl(en, state.FLAG_TERMINATE)) && old(len(en.st.Code)) > 0 ==> !result0 && result1 == nil && vm.untouched(en.vm)
+//@     && unchanged(en.exit, en.exiting)
+//@   ensures[C17] @nocode old(len(en.st.Code)) == 0 ==> result1 != nil && !result0 && vm.untouched(en.vm) && unchanged(en.execd, en.exit, en.exiting)
